@@ -155,6 +155,31 @@ class ListV:
 
 
 @dataclass
+class GenV:
+    """a generator object: its first iterable is evaluated when it is created, everything else when it is consumed, and it can be
+    consumed once (a second iteration sees nothing)"""
+    node: Optional[ast.AST]              # GeneratorExp (None for a materialised generator function result)
+    first: Any = None
+    rel: str = ""
+    items: Any = None                    # ListV for generator functions
+    consumed: bool = False
+
+
+@dataclass
+class AllV:
+    """conjunction of undecided comparisons (list == list); negated when `neg`"""
+    conds: List[Any]
+    neg: bool = False
+
+
+@dataclass
+class WindowListV:
+    """elements lo..hi-1 of a generic list, as written by a slice: shorter than hi - lo when the list ends before hi"""
+    items: List[Any]
+    fits: Any            # CondV  hi <= len(list)  (None when the length is unknown)
+
+
+@dataclass
 class GenericList:
     """a list parameter of unknown content; element `at` is a designated generic element"""
     name: str
@@ -635,9 +660,15 @@ class Interp:
 
     def exec_for(self, st: ast.For, state: State, rel: str):
         it = self.eval(st.iter, state, rel)
+        if isinstance(it, GenV):
+            it = self.materialise(it, state)
+        # a loop that re-binds a generator (a lazily chained pipeline) is followed iteration by iteration
+        chains = any(isinstance(state.env.get(nm), GenV) for nm in _assigned_names(st.body))
         if isinstance(it, RangeV) and it.count is None and it.lo.is_const() and it.hi.is_const() and it.hi.const - it.lo.const > 1 \
-                and it.hi.const - it.lo.const > self.unroll_ranges:
+                and it.hi.const - it.lo.const > self.unroll_ranges and not (chains and it.hi.const - it.lo.const <= 32):
             items = None
+        elif chains and isinstance(it, RangeV) and it.count is None and it.lo.is_const() and it.hi.is_const() and it.hi.const - it.lo.const <= 32:
+            items = [Lin(i) for i in range(it.lo.const, it.hi.const)]
         else:
             items = self.concrete_items(it)
         return self._exec_for(st, state, rel, it, items)
@@ -674,6 +705,19 @@ class Interp:
         cur = [state]
         results = []
         assigned = _assigned_names(st.body)
+        # a generator created outside the loop and iterated inside it is spent by the first iteration: peel that iteration off
+        body_names = {n.id for b in st.body for n in ast.walk(b) if isinstance(n, ast.Name)}
+        if any(isinstance(state.env.get(nm), GenV) and not state.env[nm].consumed for nm in body_names):
+            peeled = []
+            for elem, binders in fams:
+                if len(binders) == 1 and binders[0][1] > 1 and binders[0][0].lo == 0:
+                    b, n = binders[0]
+                    rest = Sym(b.name + "r", 1, n - 1)
+                    peeled.append((subst_value(elem, b, 0), []))
+                    peeled.append((subst_value(elem, b, rest), [(rest, n - 1)]))
+                else:
+                    peeled.append((elem, binders))
+            fams = peeled
         for elem, binders in fams:
             nxt = []
             for s in cur:
@@ -843,6 +887,21 @@ class Interp:
                 return [(n > 0, state)]
         if isinstance(v, CondV):
             return self.fork_on(v, state, where)
+        if isinstance(v, AllV):
+            # all conditions hold on one path; the first one that fails ends each of the others
+            out: List[Tuple[bool, State]] = []
+            cur = [state]
+            for c in v.conds:
+                nxt = []
+                for s_ in cur:
+                    for truth, s2 in self.branch_value(c, s_, where, text):
+                        if truth:
+                            nxt.append(s2)
+                        else:
+                            out.append((v.neg, s2))
+                cur = nxt
+            out.extend((not v.neg, s_) for s_ in cur)
+            return out
         if isinstance(v, (OriginV, CellV, TableV, FuncRef)):
             return [(True, state)]
         c = CondV("!=", Lin.of(Opaque(f"truth of {text}", 0, 1)), Lin(0))
@@ -880,10 +939,12 @@ class Interp:
                 s2.path.append((c, truth, where))
                 out.append((truth, s2))
             return out
-        if len(d.terms) == 1 and isinstance(d.terms[0][0], Sym) and d.terms[0][1] in (1, -1) and c.op in ("==", "!="):
-            # bare symbol equal / unequal to a constant: the equal side knows the value, the other side loses an end point
+        if len(d.terms) == 1 and isinstance(d.terms[0][0], Sym) and d.terms[0][1] != 0 and c.op in ("==", "!="):
+            # (a multiple of) a bare symbol equal / unequal to a constant: the equal side knows the value, the other side loses an end point
             sym, coef = d.terms[0]
-            k = -d.const * coef
+            if d.const % coef:
+                return [(c.op == "!=", state)]
+            k = -d.const // coef
             lo, hi = sym.lo, sym.hi
             if (lo is not None and k < lo) or (hi is not None and k > hi):
                 return [(c.op == "!=", state)]
@@ -941,6 +1002,8 @@ class Interp:
                     return not v
                 if isinstance(v, CondV):
                     return v.negate()
+                if isinstance(v, AllV):
+                    return AllV(v.conds, not v.neg)
                 if isinstance(v, Lin):          # not n  ==  (n == 0)
                     d = compare(v, "==", Lin(0))
                     return d if d is not None else CondV("==", v, Lin(0))
@@ -1036,9 +1099,32 @@ class Interp:
             return CellV({k: self.eval(v, state, rel) for k, v in zip(keys, e.values)})
         if isinstance(e, ast.ListComp):
             return self.list_comp(e, state, rel)
+        if isinstance(e, ast.GeneratorExp):
+            return GenV(e, self.eval(e.generators[0].iter, state, rel), rel)
         if isinstance(e, ast.Lambda):
             return Unknown("lambda")
         return Unknown(f"expression {type(e).__name__}")
+
+    def materialise(self, g: GenV, state: State) -> Any:
+        """what iterating the generator now yields (and it is spent afterwards)"""
+        if g.consumed:
+            return ListV([])
+        g.consumed = True
+        if g.items is not None:
+            return g.items
+        first = g.first
+        if isinstance(first, GenV):
+            first = self.materialise(first, state)
+        hidden = f"<gen-{id(g.node)}>"
+        node = copy.copy(g.node)
+        gens = [copy.copy(x) for x in g.node.generators]
+        gens[0].iter = ast.copy_location(ast.Name(id=hidden, ctx=ast.Load()), g.node)
+        comp = ast.copy_location(ast.ListComp(elt=g.node.elt, generators=gens), g.node)
+        state.env[hidden] = first
+        try:
+            return self.list_comp(comp, state, g.rel)
+        finally:
+            state.env.pop(hidden, None)
 
     def list_comp(self, e: ast.ListComp, state: State, rel: str, gi: int = 0) -> Any:
         if any(g.ifs or g.is_async for g in e.generators):
@@ -1153,6 +1239,40 @@ class Interp:
             if not present and self.saturated and r.name is not None and self.map_values.get(r.name, {}).get(key):
                 return Unknown("membership depends on earlier calls")
             return present if isinstance(op, ast.In) else not present
+        if isinstance(op, (ast.Eq, ast.NotEq)) and (isinstance(l, WindowListV) or isinstance(r, WindowListV)):
+            w, other = (l, r) if isinstance(l, WindowListV) else (r, l)
+            items = None
+            if isinstance(other, ListV) and not other.unknown and not other.stores:
+                items = []
+                for sg in other.segs:
+                    if not sg.binders:
+                        items.append(sg.elem)
+                    elif len(sg.binders) == 1 and sg.binders[0][0].lo == 0 and sg.binders[0][1] <= 16:
+                        b, n = sg.binders[0]
+                        items.extend(subst_value(sg.elem, b, j) for j in range(n))
+                    else:
+                        items = None
+                        break
+            elif isinstance(other, WindowListV):
+                items = other.items
+            if items is not None and all(isinstance(x, Lin) for x in items) and all(isinstance(x, Lin) for x in w.items):
+                if len(items) != len(w.items):
+                    return isinstance(op, ast.NotEq)
+                conds: List[Any] = []
+                if w.fits is not None:
+                    conds.append(w.fits)
+                if isinstance(other, WindowListV) and other.fits is not None:
+                    conds.append(other.fits)
+                for a_, b_ in zip(w.items, items):
+                    d_ = compare(a_, "==", b_)
+                    if d_ is False:
+                        return isinstance(op, ast.NotEq)
+                    if d_ is None:
+                        conds.append(CondV("==", a_, b_))
+                if not conds:
+                    return isinstance(op, ast.Eq)
+                return AllV(conds, isinstance(op, ast.NotEq))
+            return Unknown("comparison of a list window with a list that is not modelled")
         sym = {ast.Eq: "==", ast.NotEq: "!=", ast.Lt: "<", ast.LtE: "<=", ast.Gt: ">", ast.GtE: ">="}.get(type(op))
         if sym is None:
             return Unknown(f"comparison {type(op).__name__}")
@@ -1420,6 +1540,13 @@ class Interp:
             if isinstance(v, Lin) and v.is_const():
                 return v.const
             return Unknown
+        if isinstance(base, GenericList) and sl.step is None and sl.lower is not None and sl.upper is not None:
+            lo_v, hi_v = self.eval(sl.lower, state, rel), self.eval(sl.upper, state, rel)
+            if isinstance(lo_v, Lin) and isinstance(hi_v, Lin) and (hi_v - lo_v).is_const() and 0 <= (hi_v - lo_v).const <= 16:
+                k = (hi_v - lo_v).const
+                items = [self.subscript(base, lo_v + j, state, sl, rel) for j in range(k)]
+                fits = CondV("<=", hi_v, base.length) if base.length is not None else None
+                return WindowListV(items, fits)
         lo, hi, step = bound(sl.lower), bound(sl.upper), bound(sl.step)
         if Unknown in (lo, hi, step) or step not in (None, 1):
             return Unknown("slice with non-constant bounds or a step")
@@ -1465,6 +1592,12 @@ class Interp:
                     for s in args[0].segs:
                         recv.segs.append(Seg(s.elem, state.binders + s.binders))
                     return NONE
+                if f.attr == "extend" and len(args) == 1 and isinstance(args[0], GenV):
+                    args = [self.materialise(args[0], state)]
+                    if isinstance(args[0], ListV) and not args[0].unknown:
+                        for sg in args[0].segs:
+                            recv.segs.append(Seg(sg.elem, state.binders + sg.binders))
+                        return NONE
                 if f.attr == "extend" and len(args) == 1 and isinstance(args[0], RangeV):
                     fams = self.families(args[0])
                     if fams is not None:
@@ -1599,6 +1732,19 @@ class Interp:
                         n = max(0, -(-span.const // args[2].const))
                         return RangeV(args[0], args[1], args[2].const, n)
             return Unknown("range")
+        if name == "iter" and len(args) == 1 and not kwargs:
+            a0 = args[0]
+            if isinstance(a0, GenV):
+                return a0
+            if isinstance(a0, TupleV):
+                return GenV(None, items=ListV([Seg(x) for x in a0.items]))
+            if isinstance(a0, ListV) and not a0.unknown:
+                return GenV(None, items=ListV(list(a0.segs)))
+            return Unknown("iter() of an unmodelled value")
+        if name in ("list", "tuple", "sorted") and len(args) == 1 and isinstance(args[0], GenV) and not kwargs:
+            args = [self.materialise(args[0], state)]
+            if name == "tuple":
+                return Unknown("tuple of a generator")
         if name == "list" and len(args) == 1 and isinstance(args[0], RangeV) and args[0].count is not None:
             fams = self.families(args[0])
             return ListV([Seg(el, tuple(bs)) for el, bs in fams])
